@@ -37,6 +37,7 @@ e3e2fb6 C18 C18-cancelled-subscribe-never-unsubscribed
 82f6e37 C07 C07-ws-connect-uses-response-limit
 d862e19 C02 C02-array-shaped-entry-parsed-positionally
 eb4291f C19 C19-streamed-oversize-answered-500
+ce92150 C05 C05-stale-handle-closes-successor
 LIST
 rm -rf /verif/replays
 (cd /verif/sim && cargo build --release --offline -q 2>/dev/null)
